@@ -147,6 +147,27 @@ class Real:
         return self.lib.reb_binary_diff(ctypes.c_char_p(b1), ctypes.c_size_t(len(b1)), ctypes.c_char_p(b2),
                                         ctypes.c_size_t(len(b2)), None, None, ctypes.c_int(2))
 
+    def binary_diff_report(self, b1, b2):
+        """(return value, field list) reb_binary_diff writes with output_option 0 — the difference stream of archives"""
+        buf = ctypes.POINTER(ctypes.c_char)()
+        size = ctypes.c_size_t(0)
+        rc = self.lib.reb_binary_diff(ctypes.c_char_p(b1), ctypes.c_size_t(len(b1)), ctypes.c_char_p(b2),
+                                      ctypes.c_size_t(len(b2)), ctypes.byref(buf), ctypes.byref(size), ctypes.c_int(0))
+        data = ctypes.string_at(buf, size.value) if (size.value and buf) else b""
+        if buf:
+            libc = ctypes.CDLL(None)
+            libc.free.argtypes = [ctypes.c_void_p]
+            libc.free(ctypes.cast(buf, ctypes.c_void_p))
+        pos, fields = 0, []
+        while pos + 16 <= len(data):
+            t, = struct.unpack_from("<I", data, pos)
+            sz, = struct.unpack_from("<Q", data, pos + 8)
+            fields.append((t, data[pos + 16:pos + 16 + sz]))
+            pos += 16 + sz
+        if pos != len(data):
+            raise StreamError("difference stream is not a whole number of fields")
+        return rc, fields
+
     def addr(self, sim):
         return ctypes.addressof(sim)
 
